@@ -65,7 +65,7 @@ func dataOf(v cue.Value, labels []string) map[string]string {
 
 func checkC07(r *kit.Run) {
 	r.Assumptions = []string{
-		"programs: the seed packages of CueRewrite.tla (fields a b c over the conjunct pool) plus one of 13 extra declarations (imports, comprehension, let, definitions, hidden field, defaulted disjunction, integer and float ranges the printer may simplify); packages in which a field is in error are skipped (nothing is promised for them)",
+		"programs: the seed packages of CueRewrite.tla (fields a b c over the conjunct pool) plus one of 14 extra declarations (imports, comprehension, let, definitions, hidden field, defaulted disjunction, integer and float ranges the printer may simplify); packages in which a field is in error are skipped (nothing is promised for them)",
 		"profiles: Value.Syntax(cue.All) and Value.Syntax(cue.Final) + formatter; `cue eval` and `cue export --out cue` through the binary built from the working tree (a sample in quick, all in thorough)",
 		"equivalence is the projection of C01 (error class, kind, scalar, fields and kinds, closedness, default, concreteness, in-language probes); for final/export only the data of concrete fields",
 	}
